@@ -36,6 +36,7 @@ def run(ctx: Ctx):
     pvals(ctx)
     welch(ctx)
     overlap(ctx)
+    overlap_axes(ctx)
     indices(ctx)
     translation(ctx)
     self_exclusion(ctx)
@@ -796,3 +797,36 @@ def legacy(ctx: Ctx):
         v, cnf, snf, _ = equal(case, want_c)
         ctx.ob("legacy-effective-base.cases", where + f" [{label}]", cnf, snf, v,
                "n = (sum w)^2 / sum w^2 when squared weights are supplied, the UNWEIGHTED column base otherwise (a weighted cube without squared weights must not use its weighted N)")
+
+
+def overlap_axes(ctx: Ctx):
+    """The overlap tensors carry ONE MORE axis than the cube has dimensions (`_OverlapMeasure._shape` = the dimensions'
+    shape + the number of sub-variables), and the overlap-corrected test reads them at [row, a, a], [row, b, b],
+    [row, a, b] with a, b counted over the VALID columns.  Restricting the tensor to valid elements with the cube's own
+    per-dimension index tuple leaves the extra axis whole: with a missing sub-variable the 'diagonal' and the 'pair'
+    cells come from different sub-variables (t no longer antisymmetric, p not symmetric)."""
+    cube = ctx.repo.cls("cube.py", "Cube")
+    om = ctx.repo.cls("cube.py", "_OverlapMeasure")
+    shape = expand(ctx.repo, om, "_shape", stop=lambda m: m.name != "_shape")
+    extra_axis = isinstance(shape, ast.BinOp) and isinstance(shape.op, ast.Add) and "_all_dimensions.shape" in u(shape.left)
+    n = 0
+    for member in ("overlaps", "valid_overlaps"):
+        if ctx.repo.lookup(cube, member) is None:
+            continue
+        where = f"cube.py::Cube.{member} [axes restricted to valid elements]"
+        e = expand(ctx.repo, cube, member, stop=lambda m: m.name != member)
+        subs = [s for s in ast.walk(e) if isinstance(s, ast.Subscript) and "raw_cube_array" in u(s.value)]
+        n += 1
+        if not extra_axis or len(subs) != 1:
+            ctx.undecided("overlap-axes", where, u(e)[:120], "the raw tensor restricted on every axis, the trailing sub-variables axis included")
+            continue
+        idx = u(subs[0].slice)
+        if idx == "self._valid_idxs":
+            ctx.violated("overlap-axes", where, f"raw_cube_array[{idx}] on a tensor of shape {u(shape)[:60]}", "the trailing sub-variables axis restricted to the valid sub-variables as well",
+                         "a missing sub-variable shifts the trailing axis against the columns axis: [row, a, a] / [row, a, b] read other sub-variables than columns a, b")
+        elif "_valid_idxs" in idx or "valid_elements" in idx:
+            ctx.held("overlap-axes", where, idx[:100], "every axis restricted")
+        else:
+            ctx.undecided("overlap-axes", where, idx[:100], "every axis restricted")
+    ctx.count("overlap tensors", n)
+    ctx.require_min("overlap tensors", 2)
